@@ -19,11 +19,11 @@ func init() {
 	runner.Register(&runner.Check{
 		ID:    "C19",
 		Level: "model_checking",
-		Rule: "TABLE PART (default build): case = audit engine {On, Off, RelevantOnly} reached by SecAuditEngine, or by ctl:auditEngine in phase 1 or phase 5 from each other configured mode (15 settings) x SecAuditLogRelevantStatus {unset, ^403$, ^(?:4|5)} x 0-2 rules of phase 2 that fire, each with flags from {log, nolog, auditlog, noauditlog, `nolog,auditlog`, `log,noauditlog`} and msg/logdata expanded from the request x {no interruption, deny 403 on rule 1 or 2 with SecRuleEngine On, the same with DetectionOnly} x response {none, 200, 404} x parts {ABCFHZ, ABIJKZ, ABCFHZ+ctl:auditLogParts=+E, ABCFHZ+ctl:auditLogParts=-B, ABCFHKZ, directive absent} x SecAuditLogFormat {Native, JSON} x payload bytes placed in a request header, the request body, a response header, the response body and (by macro) the rule message and logdata: {plain, double quote, backslash, newline, CRLF, \\xff, a line that looks like a native boundary}. " +
+		Rule: "TABLE PART (default build): case = audit engine {On, Off, RelevantOnly} reached by SecAuditEngine, or by ctl:auditEngine in phase 1 or phase 5 from another configured mode (quick: one other mode, 9 settings; thorough: both, 15 settings) x SecAuditLogRelevantStatus {unset, ^403$, ^(?:4|5)} x 0-2 rules of phase 2 that fire, each with flags from {log, nolog, auditlog, noauditlog, `nolog,auditlog`, `log,noauditlog`} (quick: second rule from {nolog, `nolog,auditlog`, `log,noauditlog`}) and msg/logdata expanded from the request, x {no interruption, deny 403 on rule 1 or 2 with SecRuleEngine On, the same with DetectionOnly} (73 rule programs quick, 199 thorough) x parts {ABCFHZ, ABIJKZ, ABCFHZ+ctl:auditLogParts=+E, ABCFHZ+ctl:auditLogParts=-B, ABCFHKZ, directive absent} x SecAuditLogFormat {Native, JSON} x response {none, 200, 404} x payload bytes placed in a request header, the request body, a response header, the response body and (by macro) the rule message and logdata: {plain, double quote, backslash, newline, CRLF, \\xff, a line that looks like a native boundary} (thorough: full product, 21 requests per configuration; quick: plain payload with every status, the other payloads with status 200, 9 requests). " +
 			"Records are captured by an audit-log writer registered through the plugin API that formats with the configured formatter; error-callback invocations through WithErrorCallback. " +
-			"Oracle: reference decision function (one record iff On, or RelevantOnly and the real or would-be status matches the pattern; RelevantOnly without a pattern is not asserted), transaction id carried, listed rules = fired audit-enabled rules (part H / K), error callback once per fired rule with log, JSON = one line that encoding/json parses and whose fields give back the bytes (modulo U+FFFD for bytes JSON cannot carry), Native = sections delimited by the record's own boundary are exactly the configured parts from A to Z, boundary nowhere else. " +
-			"distinct_nontrivial = distinct cases in which at least one rule fired and a record was expected. " +
-			"SCHEDULE PART (race build): 2-3 controlled threads each finish (ProcessLogging + Close) one prepared transaction of one shared WAF through the real serial writer (file) and the real concurrent writer (index file + one file per transaction), formats JSON and Native; scheduling points at every sync / atomic / pool operation of coraza, before every log.Logger output call of internal/auditlog and before every os file operation there; every interleaving within the preemption bound (2 quick / 3 thorough) is executed depth-first; oracle per schedule: no race report, no deadlock, no panic, the log file is a sequence of whole records, one per transaction (equal, after masking time stamps and the random boundary, to the record the transaction produces alone), the concurrent index holds one whole entry per transaction and the storage directory one whole record file per transaction. states = scheduling-tree nodes, transitions = scheduling steps, traces = complete schedules",
+			"Oracle: reference decision function (one record iff On, or RelevantOnly and the real or would-be status matches the pattern; RelevantOnly without a pattern is not asserted), transaction id carried, listed rules = fired audit-enabled rules (part H / K), error callback once per fired rule with log and with the transaction's id, JSON = one line that encoding/json parses and whose fields give back the bytes (modulo U+FFFD for bytes JSON cannot carry), Native = sections delimited by the record's own boundary are exactly the configured parts from A to Z, boundary nowhere else, header / body / message bytes present unaltered. " +
+			"distinct_nontrivial = distinct cases in which at least one rule fired and a record was expected; in this part states = configurations (WAFs built), transitions = traces = transactions executed. " +
+			"SCHEDULE PART (race build): 2-3 controlled threads each finish (ProcessLogging + Close) one prepared transaction of one shared WAF through the real serial writer (file) and the real concurrent writer (index file + one file per transaction), formats JSON and Native (6 scenarios); scheduling points at every sync / atomic / pool operation of coraza, before every log.Logger output call of internal/auditlog and before every os file operation there that is not issued from inside the standard logger; every interleaving within the preemption bound (2 quick / 3 thorough) is executed depth-first; oracle per schedule: no race report, no deadlock, no panic, the log file is a sequence of whole records, one per transaction (equal, after masking time stamps and the random boundary, to the record the transaction produces alone), the concurrent index holds one whole entry per transaction and the storage directory one whole record file per transaction; a self test proves that a writer emitting a record in two writes is caught. states = scheduling-tree nodes, transitions = scheduling steps, traces = complete schedules",
 		Assumptions: []string{
 			"the rule engine fires the generated unconditional rules as C01/C02 establish; the fired set is additionally cross-checked against tx.MatchedRules()",
 			"scheduling points are the synchronisation operations of coraza, the logger output calls and the os file operations of internal/auditlog; code between two of them is atomic for the scheduler, its unsynchronised accesses are caught by the race detector instead",
